@@ -1746,4 +1746,14 @@ theorem spec_rejected_is_noop (s : Spec.DepDB.SSys) (isQ : Bool) (name : String)
           | none => rfl
           | some db2 => rw [h5] at h; simp at h
 
+/-- **Obligation (transcription).** Two functions of dependency/database.go that `Model/DepDB` transcribes by hand are
+    still the text it was written from: `AddControllerInput` looks for an input with equal keys at the positions
+    `idx-1, idx, idx+1` of the sorted list that lie within its bounds (position 0 included) before inserting at `idx`
+    (`DepDB.addInput`), and `RollbackController` deletes a shared-output entry that becomes empty (`DepDB.rollback`: a
+    type none of whose sharers is left is free again for an exclusive owner). The facts are regenerated from the source
+    on every run and fail closed; they are not consumed by the model, so a change there is reported through this theorem
+    and through the `depdb` / `registry` engines. -/
+theorem database_shapes_as_modelled :
+    Gen.DepDB.addInputNeighbourhood = true ∧ Gen.DepDB.rollbackDropsEmptyShared = true := by decide
+
 end Cosi.C17
